@@ -41,3 +41,6 @@ def rate(seed, n):
 
 def twin(seed, n):
     return _mk("twin", "hc", gen_hc.twin_case, n, seed * 101 + 9)
+
+def reuse(seed, n):
+    return _mk("reuse", "hc", gen_hc.reuse_case, n, seed * 101 + 10)
